@@ -1005,6 +1005,10 @@ func (w *World) userPoint(ctx context.Context, site, kind, key string) error {
 
 // yield is called at the simhook points inside bigslice (never under a lock).
 func (w *World) yield(point, key string) {
+	if w.c.Config.Race && strings.HasPrefix(point, "scope.") {
+		// Race runs: no harness synchronisation on per-row paths (see userPoint).
+		return
+	}
 	w.tick()
 	name := "y|" + point + "|" + key
 	w.mu.Lock()
@@ -1049,7 +1053,16 @@ func (w *World) yield(point, key string) {
 	// already published, and delaying here would stretch the observed
 	// in-flight interval beyond the real one.
 	if !strings.HasSuffix(point, ".done") {
-		if d := simnet.DelayFor(w.c.Config.DelayProfile, w.c.Config.DelaySeed, name, occ); d > 0 {
+		profile := w.c.Config.DelayProfile
+		if strings.HasPrefix(point, "scope.") && profile != "none" {
+			// The yield points inside metrics.Scope are passed once or twice per
+			// counted ROW. Long delays there are not a schedule but a slow motion of
+			// the whole run (65 536 rows x up to 20 s exceeded the liveness budget and
+			// was reported as a hang: a false alarm, corrected here): they only get
+			// sub-millisecond jitter, like keepalive traffic.
+			profile = "ns"
+		}
+		if d := simnet.DelayFor(profile, w.c.Config.DelaySeed, name, occ); d > 0 {
 			time.Sleep(d)
 		}
 	}
